@@ -103,7 +103,7 @@ func changedSections(a, b string) string {
 		return s[i : i+j]
 	}
 	var out []string
-	for _, t := range []struct{ tag, name string }{{"A", "accounts"}, {"B", "balances"}, {"L", "logs"}} {
+	for _, t := range []struct{ tag, name string }{{"A", "accounts"}, {"B", "balances"}, {"L", "logs"}, {"M", "stakes"}} {
 		if sec(a, t.tag) != sec(b, t.tag) {
 			out = append(out, t.name)
 		}
@@ -194,12 +194,8 @@ func riskyOps(f *frame, acc map[string]bool) {
 		case 'A':
 			acc["authcall"] = true
 			riskyOps(a.body, acc)
-		case 'K':
-			acc["stake"] = true
-		case 'U':
-			acc["unstake"] = true
-		case 'V':
-			acc["unstakeall"] = true
+		case 'K', 'U', 'V':
+			acc["stakefamily"] = true
 		case 'C', 'N':
 			riskyOps(a.body, acc)
 		}
@@ -461,12 +457,41 @@ func runReplay(a map[string]string) {
 
 func runLines(h *harness, lines []string, emit func(op, res string)) {
 	var blk *block
+	var pending []string // rtx lines of a real-loop block, executed at `rend`
 	for _, line := range lines {
 		line = strings.TrimSpace(line)
 		if line == "" || strings.HasPrefix(line, "#") {
 			continue
 		}
 		t := strings.Fields(line)
+		if t[0] == "rtx" && blk != nil {
+			t[0] = "tx"
+			if tx, err := parseTx(t, blk); err == nil {
+				tx.rootID = 60000 + len(blk.txs)
+				blk.txs = append(blk.txs, tx)
+				pending = append(pending, line)
+				continue
+			}
+			emit(line, "bad-op")
+			continue
+		}
+		if t[0] == "rend" && blk != nil {
+			var answers []string
+			var end string
+			if p := hx.Guard(func() string { answers, end = h.runRealBlock(blk); return "" }); p != "" {
+				end = p
+			}
+			for i, l := range pending {
+				a := "?"
+				if i < len(answers) {
+					a = answers[i]
+				}
+				emit(l, a)
+			}
+			emit(line, end)
+			pending = nil
+			continue
+		}
 		res := hx.Guard(func() string {
 			switch t[0] {
 			case "reset":
@@ -733,6 +758,86 @@ func runSearch(a map[string]string) {
 		blk.txs = []*txn{t1, t2, t3}
 		runBlock(blk, "cross-tx")
 	}
+	// 2a. the unmodified block loop (VMExecutor.Execute): blocks of flat transactions (no child frames), for
+	// which the surviving LOGs are known by construction: a successful transaction's receipt carries exactly
+	// its own LOG actions, a failed one none; every receipt log is stamped with the transaction's own hash
+	for round := 0; round < 6; round++ {
+		g := newGen(r.Fork(), st)
+		accs := stdAccounts()
+		for i := range accs {
+			if accs[i].n == 10 {
+				accs[i].balance = realOriginBalance
+			}
+		}
+		blk := &block{real: true, cfg: cfgs[round%2], accounts: accs, salts: map[int]*frame{}}
+		g.blk = blk
+		g.nextID = 1
+		ntx := 2 + r.Intn(3)
+		for i := 0; i < ntx; i++ {
+			body := &frame{end: []string{"stop", "stop", "revert", "invalid"}[r.Intn(4)]}
+			for k := r.Intn(4); k > 0; k-- {
+				switch r.Intn(3) {
+				case 0:
+					body.acts = append(body.acts, &act{kind: 'L', k: r.Intn(5), v: 1 + r.Intn(200)})
+				case 1:
+					body.acts = append(body.acts, &act{kind: 'T', k: r.Intn(3), v: 1 + r.Intn(9)})
+				default:
+					body.acts = append(body.acts, &act{kind: 'S', k: r.Intn(3), v: r.Intn(4)})
+				}
+			}
+			tx := &txn{hash: 1 + i, origin: "b10", target: hosts[r.Intn(len(hosts))], rootID: g.id(), body: body, blk: blk}
+			if r.Chance(1, 4) {
+				tx.create, tx.target = true, ""
+				if body.end == "stop" {
+					body.end, body.endTag = "retcode", 3
+				}
+			}
+			blk.txs = append(blk.txs, tx)
+		}
+		p.prefix = []string{blk.resetLine()}
+		h.reset(blk)
+		var lines []string
+		for _, tx := range blk.txs {
+			lines = append(lines, tx.realLine())
+		}
+		lines = append(lines, "rend")
+		if d := hx.Guard(func() string { return realLoopOracle(h, blk) }); d != "" {
+			key := "real-loop:receipt-logs"
+			if !blk.cfg.p013 {
+				key = "real-loop:receipt-logs:pre013"
+			}
+			if strings.HasPrefix(d, "PANIC") {
+				key = "panic"
+			}
+			if _, ok := byKey[key]; !ok {
+				byKey[key] = violation{Key: key, Desc: d, Replay: map[string]interface{}{"prefix": p.prefix, "ops": lines}}
+			}
+		}
+		probes += len(blk.txs)
+		classes["real-loop"]++
+	}
+	// 2c. STAKE / UNSTAKE / UNSTAKEALL inside a STATICCALL into a registered miner account, directly and one CALL deeper
+	for _, op := range []*act{{kind: 'K', k: 1}, {kind: 'U', k: 1}, {kind: 'V'}} {
+		for _, nested := range []bool{false, true} {
+			g := newGen(r.Fork(), st)
+			g.nextID = 2
+			accs := stdAccounts()
+			for i := range accs {
+				if accs[i].n == 23 {
+					accs[i].kind, accs[i].balance = "m", 2000000000000000007
+				}
+			}
+			blk := &block{cfg: cfgs[0], accounts: accs, salts: map[int]*frame{}}
+			g.blk = blk
+			f := &frame{acts: []*act{op}, end: "stop"}
+			if nested {
+				f = &frame{acts: []*act{{kind: 'C', id: g.id(), ck: "call", addr: "b23", body: f}}, end: "stop"}
+			}
+			sc := &act{kind: 'C', id: g.id(), ck: "staticcall", addr: "b23", body: f}
+			blk.txs = []*txn{{hash: 1, origin: "b10", target: "b20", rootID: 1, body: &frame{acts: []*act{sc}, end: "stop"}, blk: blk}}
+			runBlock(blk, "stake-static")
+		}
+	}
 	// 2b. STAKE inside a STATICCALL (needs a registered miner account; outside the line protocol)
 	probes++
 	if d := hx.Guard(func() string { return stakeProbe(false) }); d != "" {
@@ -759,4 +864,37 @@ func runSearch(a map[string]string) {
 	}
 	sj, _ := json.Marshal(map[string]interface{}{"probes": probes, "distinct": len(distinct), "oracle_checks": p.checks, "classes": classes, "violation_classes": keys})
 	fmt.Println("STATS " + string(sj))
+}
+
+// realLoopOracle runs a block of flat transactions through the unmodified block loop and checks the receipts
+func realLoopOracle(h *harness, blk *block) string {
+	answers, _ := h.runRealBlock(blk)
+	for i, tx := range blk.txs {
+		var want []string
+		ok := strings.HasPrefix(answers[i], "ok ")
+		if ok {
+			for _, a := range tx.body.acts {
+				if a.kind == 'L' {
+					want = append(want, strconv.Itoa(a.v))
+				}
+			}
+		}
+		g := answers[i][strings.Index(answers[i], "G[")+2:]
+		g = strings.TrimSuffix(g, "]")
+		var got []string
+		for _, l := range strings.Split(g, ";") {
+			if l == "" {
+				continue
+			}
+			f := strings.Split(l, "/")
+			if blk.cfg.p013 && f[0] != strconv.Itoa(tx.hash) { // before Proposal013 there is no Prepare, logs carry the zero hash
+				return fmt.Sprintf("receipt of transaction %d carries a log stamped with hash %s: %s", tx.hash, f[0], answers[i])
+			}
+			got = append(got, f[len(f)-1])
+		}
+		if strings.Join(got, ",") != strings.Join(want, ",") {
+			return fmt.Sprintf("receipt of transaction %d (%s) carries LOG tags [%s], its own surviving LOGs are [%s]", tx.hash, strings.SplitN(answers[i], " ", 2)[0], strings.Join(got, ","), strings.Join(want, ","))
+		}
+	}
+	return ""
 }
